@@ -454,22 +454,23 @@ var atomicExceptions = map[string]string{
 	"mosn.io/mosn/pkg/module/http2.serverConn.curClientStreams@processHeaders":                       "x/net discipline: serve goroutine only",
 	"mosn.io/mosn/pkg/module/http2.serverConn.curPushedStreams@closeStream":                          "x/net discipline: serve goroutine only",
 	"mosn.io/mosn/pkg/module/http2.serverConn.curPushedStreams@curOpenStreams":                       "x/net discipline: serve goroutine only",
-	"mosn.io/mosn/pkg/module/http2.serverConn.curPushedStreams@startPush$1":                          "x/net discipline: serve goroutine only",
+	"mosn.io/mosn/pkg/module/http2.serverConn.curPushedStreams@startPush":                            "x/net discipline: serve goroutine only",
 	"mosn.io/mosn/pkg/mtls/crypto/tls.Conn.handshakeStatus@TransferTLSConn":                          "construction of a transferred connection before it is shared",
 	"mosn.io/mosn/pkg/proxy.downStream.ID@OnReady":                                                   "log line",
-	"mosn.io/mosn/pkg/proxy.downStream.ID@OnReceive$1$1":                                             "log line in the recover handler",
+	"mosn.io/mosn/pkg/proxy.downStream.ID@OnReceive":                                                 "log line in the recover handler",
 	"mosn.io/mosn/pkg/proxy.downStream.ID@TerminateStream":                                           "log line",
-	"mosn.io/mosn/pkg/proxy.downStream.ID@cleanStream$1":                                             "log line in the recover handler",
+	"mosn.io/mosn/pkg/proxy.downStream.ID@chooseHost":                                                "log line",
+	"mosn.io/mosn/pkg/proxy.downStream.ID@cleanStream":                                               "log line (also in the recover handler)",
 	"mosn.io/mosn/pkg/proxy.downStream.ID@sendHijackReply":                                           "log line",
 	"mosn.io/mosn/pkg/proxy.downStream.ID@sendHijackReplyWithBody":                                   "log line",
 	"mosn.io/mosn/pkg/proxy.downStream.ID@waitNotify":                                                "log line",
 	"mosn.io/mosn/pkg/stream/connpool/msgconnpool.activeClient.connData@initConnectionLocked":        "log line",
-	"mosn.io/mosn/pkg/stream/connpool/msgconnpool.activeClient.connData@reconnect$2":                 "log line in the recover handler",
+	"mosn.io/mosn/pkg/stream/connpool/msgconnpool.activeClient.connData@reconnect":                   "log line in the recover handler",
 	"mosn.io/mosn/pkg/stream/xprotocol.idleFree.lastStreamID@CheckFree":                              "log line",
 	"mosn.io/mosn/pkg/trace.SpanIdGenerator.childIndex@GenerateNextChildIndex":                       "trace id formatting right after the atomic add; a skewed id is harmless",
 	"mosn.io/mosn/pkg/upstream/cluster.resource.current@Cur":                                         "accessor used by tests and the admin view; admission (CanCreate/Increase/Decrease) is atomic",
 	"mosn.io/mosn/pkg/upstream/cluster.resource.current@UpdateCur":                                   "setter used by tests only",
-	"mosn.io/mosn/pkg/upstream/cluster.strictDnsCluster.version@UpdateHosts$1":                       "version captured for the resolver goroutine it starts; compared atomically later",
+	"mosn.io/mosn/pkg/upstream/cluster.strictDnsCluster.version@UpdateHosts":                         "version captured for the resolver goroutine it starts; compared atomically later",
 	"mosn.io/mosn/pkg/wasm.wasmPluginImpl.instanceNum@Clear":                                         "log line",
 }
 
@@ -571,7 +572,13 @@ func runGeneric(c *Ctx, spec *PropSpec) {
 	findings, nf, na := atomicDiscipline(fns)
 	ord := ordCounter{}
 	for _, f := range findings {
-		key := fmt.Sprintf("%s.%s@%s", f.af.typ, f.af.field, f.fn.Name())
+		// keyed by the enclosing declared function: the ordinal of a closure ($1, $2) moves when another closure is
+		// added before it, which changes nothing
+		root := f.fn
+		for root.Parent() != nil {
+			root = root.Parent()
+		}
+		key := fmt.Sprintf("%s.%s@%s", f.af.typ, f.af.field, root.Name())
 		if _, ok := atomicExceptions[key]; ok {
 			continue
 		}
@@ -892,7 +899,7 @@ func pooledEscapes(fn *ssa.Function) []g4Finding {
 					}
 				}
 				for _, cu := range cand {
-					if ret, ok := cu.(*ssa.Return); ok {
+					if ret, ok := cu.(*ssa.Return); ok && isReturn(cu) {
 						if r.deferred || existsPath(fn, r.in, func(x ssa.Instruction) bool { return x == ssa.Instruction(ret) }, nil) != nil {
 							out = append(out, g4Finding{fn, nearestPos(ret), "still referenced by a field of the object that is returned to the caller"})
 						}
